@@ -57,7 +57,7 @@ MUT={
                             for i in range(rdms.n_rdm)])
         rdm_norms = np.einsum('ij, ij->i', rdm_vec_nonan, v_inv_x).reshape(
             [rdms.n_rdm, 1])
-        rdm_vec = rdm_vec / np.sqrt(rdm_norms)
+        rdm_vec = rdm_vec / _nonzero(np.sqrt(rdm_norms))
         rdm_vec = _nan_mean(rdm_vec)
     elif method == 'corr_cov':""","""        ok_idx = np.all(np.isfinite(rdm_vec), axis=0)
         v = v[:ok_idx.sum()][:, :ok_idx.sum()]
@@ -67,9 +67,20 @@ MUT={
                             for i in range(rdms.n_rdm)])
         rdm_norms = np.einsum('ij, ij->i', rdm_vec_nonan, v_inv_x).reshape(
             [rdms.n_rdm, 1])
-        rdm_vec = rdm_vec / np.sqrt(rdm_norms)
+        rdm_vec = rdm_vec / _nonzero(np.sqrt(rdm_norms))
         rdm_vec = _nan_mean(rdm_vec)
     elif method == 'corr_cov':"""),
 }
+
+MUT.update({
+ 'N1':('util/pooling.py',"rdm_vec = rdm_vec - np.nanmin(rdm_vec) + 0.01\n    elif method == 'cosine_cov':","rdm_vec = rdm_vec - np.nanmin(rdm_vec) + 0.02\n    elif method == 'cosine_cov':"),
+ 'N2':('util/inference_util.py',"        rdm_vec = rdm_vec / _nonzero(np.nanstd(rdm_vec, axis=1, keepdims=True))","        rdm_vec = rdm_vec / np.nanstd(rdm_vec, axis=1, keepdims=True)"),
+ 'N3':('rdm/compare.py',"            vector2 = rdm2.reshape(1, -1)","            vector2 = np.nan_to_num(rdm2).reshape(1, -1)"),
+ 'N4':('rdm/combine.py',"        all_patterns = list(dict.fromkeys(all_patterns).keys())","        all_patterns = sorted(dict.fromkeys(all_patterns).keys(), reverse=True)"),
+ 'N5':('rdm/rdms.py',"            selection = np.where(desc == value)[0]\n        selection = np.sort(selection)\n        dissimilarities = self.get_matrices()","            selection = np.where(desc != value)[0]\n        selection = np.sort(selection)\n        dissimilarities = self.get_matrices()"),
+ 'N6':('rdm/compare.py',"        v = v[nan_idx][:, nan_idx]\n    else:","        v = v[nan_idx][:, nan_idx] if sigma_k is not None else v[:nan_idx.sum()][:, :nan_idx.sum()]\n    else:"),
+ 'N7':('util/rdm_utils.py',"    vector1 = rdm1.get_vectors()\n    vector2 = rdm2.get_vectors()\n    return _parse_nan_vectors(vector1, vector2)","    vector1 = np.nan_to_num(rdm1.get_vectors())\n    vector2 = rdm2.get_vectors()\n    return _parse_nan_vectors(vector1, vector2)"),
+})
+
 for k in sys.argv[1:]:
     run(k,*MUT[k])
